@@ -2493,6 +2493,12 @@ impl ModuleGraph {
           }
           js_module.maybe_types_dependency = None;
           handle_dependencies(&mut seen_pending, &mut js_module.dependencies);
+          // the source map is not type information: a code only build has it
+          if let Some(source_map_dep) = &js_module.maybe_source_map_dependency
+            && let Some(specifier) = source_map_dep.dependency.maybe_specifier()
+          {
+            seen_pending.add(specifier.clone());
+          }
         }
         Module::Wasm(wasm_module) => {
           wasm_module.source_dts = Default::default();
